@@ -34,7 +34,7 @@ STATELESS = {"rekey-to", "can-close-account", "can-close-asset", "missing-fee-ch
 TYPE_NUM = {"pay": 1, "keyreg": 2, "acfg": 3, "axfer": 4, "afrz": 5, "appl": 6}
 PROFILE = {"keys": ["Fee", "Addr", "Addr", "GroupIndex", "GroupSize"], "p_cf": 0.0, "max_subs": 1, "max_stmts": 3,
            "max_depth": 2, "gtxn": 0.5, "loops": False, "switch": False, "direct_only": True, "intc": 0.0,
-           "end_styles": ["ret1"], "feesink": 0.0, "hostile_endings": False}
+           "end_styles": ["ret1"], "feesink": 0.0, "hostile_endings": False, "mode_marker": 0.0}
 
 
 class Ctr(dict):
